@@ -639,6 +639,11 @@ def install(coarse_mcs=True):
     for name in ("synrbl.preprocess", "synrbl.rule_based", "synrbl.SynProcessor.rsmi_processing"):
         _need(mods[name], "pd")
         mods[name].pd = PD
+    # any other analysed module that (now) imports pandas gets the same untraced proxy
+    for m in list(sys.modules.values()):
+        name = getattr(m, "__name__", "")
+        if name.startswith("synrbl") and getattr(m, "pd", None) is _real_pd and name != "synrbl.confidence_prediction":
+            m.pd = PD
 
     m = mods["synrbl.SynProcessor.rsmi_processing"]
     _need(m, "Chem")
